@@ -28,10 +28,10 @@ CHECKS = {
   ref="DESIGN.md §7 C04",
   note="The provisioner's batching window, the launch call itself (C14) and pods that are bound between the pass and the launch are outside."),
  "C06": dict(
-  technique="bounded symbolic execution (go/ssa -> SMT, z3; exact rational arithmetic for the float cost formula) of disruption.NewCandidate / Candidate.IsEmpty / Emptiness.ShouldDisrupt with symbolic pod-deletion-cost annotations and priorities",
-  text="Emptiness half only: for a node with up to 2 reschedulable pods whose pod-deletion-cost annotation and priority are symbolic integers over their whole documented ranges, Emptiness treats the node as empty exactly when no pod has a positive eviction cost (each pod's cost clamped on its own before summation).",
-  ref="DESIGN.md §7 C06",
-  note="NOT claimed by this check: the replacement price rule (RemoveInstanceTypeOptionsByPriceAndMinValues, spot-to-spot rules, spot pin) and the soundness of the consolidation simulation (the latter rests on C01/C02/C18). See DESIGN.md."),
+  technique="bounded symbolic execution (go/ssa -> SMT, z3; exact rational arithmetic for prices and the eviction-cost formula) of consolidation.computeConsolidation through the real SimulateScheduling (Provisioner.NewScheduler, Scheduler.Solve, TruncateInstanceTypes) on a real state.Cluster, computeSpotToSpotConsolidation, RemoveInstanceTypeOptionsByPriceAndMinValues, and of NewCandidate/IsEmpty/Emptiness.ShouldDisrupt",
+  text="Decision: for one or two candidate nodes (on-demand or spot) with one reschedulable pod of symbolic cpu each, an optional remaining node of symbolic allocatable, a NodePool allowing both capacity types or on-demand only, 3 instance types x {on-demand, spot} with symbolic prices and availability and a symbolic feature gate: whenever a command is produced every pod has exactly one home (the remaining node, where it fits, or the single replacement, whose every launch option it fits), and every available offering the replacement's final requirements admit is strictly cheaper than the summed price of the candidates (this covers the worst-case launch price rule and the spot pin for on-demand nodes); spot-to-spot needs the gate. Single-node spot-to-spot over a catalogue of 16-17 spot types with symbolic prices/availability around the threshold: needs the gate and at least 15 cheaper available alternatives, and the request is capped at 15. Emptiness: with up to 2 pods whose pod-deletion-cost annotation and priority are symbolic integers over their whole ranges, a node is treated as empty exactly when no pod has a positive eviction cost.",
+  ref="DESIGN.md §7 C06, §11",
+  note="Prices are multiples of 2^-10 in (0,1024] (exact in float64). No PDBs, DaemonSets, volumes, DRA, topology constraints or minValues in the decision harnesses; the multi-node binary search over candidate prefixes, the validation re-simulation (validation.go) and balanced scoring are not covered. Quick tier: with two candidates only the smallest type has symbolic availability, filler types share one price; thorough lifts both."),
  "C18": dict(
   technique="bounded symbolic execution (go/ssa -> SMT, z3) with write-freezing: every heap cell reachable from the live cluster state and the provider's instance-type catalogue is frozen before the simulation steps run, any write to a frozen cell is a violation; observable accessors compared before/after",
   text="Simulation steps on copies (DeepCopyNodes, NewExistingNode, ExistingNode.CanAdd/Add; NodeClaim.CanAdd/Add, FinalizeScheduling, Truncate/OrderByPrice, Results.Record) with symbolic pod requests, capacities and an optional host port: no write reaches a cell of the live cluster state or of the provider's instance types/offerings, and node usage, host-port usage, deletion marks and nominations read the same before and after.",
